@@ -336,7 +336,7 @@ def TBoundedUnsignedInteger(num_bits, type_name):
         def validate_native(cls, value):
             return (
                     UnsignedInteger.validate_native(cls, value)
-                and (value is None or (_min_b <= value < _max_b))
+                and (value is None or (_min_b <= value <= _max_b))
             )
 
     return _BoundedUnsignedInteger
